@@ -1024,20 +1024,19 @@ impl Translator {
                 //     .enumerate()
                 //     .map(|(i, _)| make_label(&format!("arm{i}")))
                 //     .collect::<Vec<_>>();
+                // An arm with or-patterns is expanded into one comparison per combination of
+                // alternatives. `or_pat_decisions` holds the or-patterns that currently take
+                // their right alternative; it is advanced like an odometer over the or-patterns
+                // met under the current choices, so `(1 | 2, 3 | 4)` yields all four pairs.
                 let mut arm_labels = vec![];
-                let mut or_pat_decisions = HashSet::default();
                 for (i, arm) in arms.iter().enumerate() {
+                    let mut or_pat_decisions = HashSet::default();
                     loop {
-                        let mut went_left = false;
-                        self.traverse_arm_pat(
-                            &arm.pat,
-                            mono,
-                            &mut or_pat_decisions,
-                            &mut went_left,
-                        );
+                        let mut visited = vec![];
+                        self.traverse_arm_pat(&arm.pat, mono, &or_pat_decisions, &mut visited);
 
                         let arm_label = make_label(&format!("arm{i}"));
-                        arm_labels.push((arm_label.clone(), arm.clone()));
+                        arm_labels.push((arm_label.clone(), arm.clone(), or_pat_decisions.clone()));
 
                         // duplicate the scrutinee before doing a comparison
                         // (a void scrutinee occupies no stack slot: there is nothing to duplicate)
@@ -1053,18 +1052,29 @@ impl Translator {
                         );
                         self.emit(st, Instr::JumpIf(arm_label));
 
-                        if !went_left {
-                            break;
+                        // next combination: the last or-pattern still on its left alternative
+                        // moves to the right, the ones after it start over on the left
+                        match visited
+                            .iter()
+                            .rposition(|id| !or_pat_decisions.contains(id))
+                        {
+                            Some(k) => {
+                                or_pat_decisions.insert(visited[k]);
+                                for id in &visited[k + 1..] {
+                                    or_pat_decisions.remove(id);
+                                }
+                            }
+                            None => break,
                         }
                     }
                 }
-                let mut or_pat_decisions = HashSet::default();
                 // let mut label_index = 0;
-                for (i, (arm_label, arm)) in arm_labels.iter().enumerate() {
+                for (i, (arm_label, arm, decisions)) in arm_labels.iter().enumerate() {
                     // let arm_label = &arm_labels[label_index];
                     // label_index += 1;
                     self.emit(st, arm_label.clone());
 
+                    let mut or_pat_decisions = decisions.clone();
                     self.handle_pat_binding(
                         &arm.pat,
                         offset_table,
@@ -1934,7 +1944,6 @@ impl Translator {
                 if !or_pat_decisions.contains(&pat.id) {
                     let left_ty = self.get_ty(mono, left.node()).unwrap();
                     self.translate_pat_comparison(&left_ty, left, st, mono, or_pat_decisions);
-                    or_pat_decisions.insert(pat.id);
                 } else {
                     let right_ty = self.get_ty(mono, right.node()).unwrap();
                     self.translate_pat_comparison(&right_ty, right, st, mono, or_pat_decisions);
@@ -2655,44 +2664,45 @@ impl Translator {
         }
     }
 
+    // collects, in traversal order, the or-patterns met under the current choices
     fn traverse_arm_pat(
         &self,
         pat: &Rc<Pat>,
         mono: &MonomorphEnv,
-        or_pat_decisions: &mut HashSet<NodeId>,
-        went_left: &mut bool,
+        or_pat_decisions: &HashSet<NodeId>,
+        visited: &mut Vec<NodeId>,
     ) {
         match &*pat.kind {
             PatKind::Tuple(pats) => {
                 for pat in pats.iter() {
-                    self.traverse_arm_pat(pat, mono, or_pat_decisions, went_left);
+                    self.traverse_arm_pat(pat, mono, or_pat_decisions, visited);
                 }
             }
             PatKind::Struct(name, field_pats) => {
                 for pat in self.struct_pat_fields_in_order(name, field_pats) {
-                    self.traverse_arm_pat(&pat, mono, or_pat_decisions, went_left);
+                    self.traverse_arm_pat(&pat, mono, or_pat_decisions, visited);
                 }
             }
             PatKind::Variant(_prefixes, tag, inner) => match inner {
                 Some(PatVariantData::Positional(inner)) => {
                     let pat_ty = self.get_ty(mono, pat.node()).unwrap();
                     if pat_ty != SolvedType::Void {
-                        self.traverse_arm_pat(inner, mono, or_pat_decisions, went_left);
+                        self.traverse_arm_pat(inner, mono, or_pat_decisions, visited);
                     }
                 }
                 Some(PatVariantData::Named(named)) => {
                     for pat in self.variant_named_pats_in_order(tag, named) {
-                        self.traverse_arm_pat(&pat, mono, or_pat_decisions, went_left);
+                        self.traverse_arm_pat(&pat, mono, or_pat_decisions, visited);
                     }
                 }
                 None => {}
             },
             PatKind::Or(left, right) => {
+                visited.push(pat.id);
                 if !or_pat_decisions.contains(&pat.id) {
-                    self.traverse_arm_pat(left, mono, or_pat_decisions, went_left);
-                    *went_left = true;
+                    self.traverse_arm_pat(left, mono, or_pat_decisions, visited);
                 } else {
-                    self.traverse_arm_pat(right, mono, or_pat_decisions, went_left);
+                    self.traverse_arm_pat(right, mono, or_pat_decisions, visited);
                 }
             }
             PatKind::Binding(_)
@@ -2784,7 +2794,6 @@ impl Translator {
             PatKind::Or(left, right) => {
                 if !or_pat_decisions.contains(&pat.id) {
                     self.handle_pat_binding(left, locals, st, mono, or_pat_decisions);
-                    or_pat_decisions.insert(pat.id);
                 } else {
                     self.handle_pat_binding(right, locals, st, mono, or_pat_decisions);
                 }
